@@ -474,10 +474,12 @@ impl Property for C14Prop {
             }
         }
 
-        // ---- autoforward: host events received while the kid is active are put into the kid's queue
+        // ---- autoforward: external events received while the kid is active are put into the kid's queue
         if autoforward {
             for m in &macros {
-                if !m.ev.starts_with("hostev") || !m.in_work_at_start {
+                // every external event counts: those of the host, those of the other child and those the
+                // autoforward child itself has sent to its parent (they come back to it)
+                if !(m.ev.starts_with("hostev") || m.ev.starts_with("c.")) || !m.in_work_at_start {
                     continue;
                 }
                 // the kid instance active at that moment
